@@ -1,4 +1,4 @@
-#!/bin/sh
+#!/bin/bash
 # Seed regression without touching /repo: every seeded change is applied to its own scratch worktree of /repo and
 # judged by the quick check of its property (VERIF_REPO / VERIF_SCRATCH).  usage: tools/seeds_scratch.sh [jobs] [pattern]
 cd /verif
